@@ -6,9 +6,9 @@ open Fabio Fabio.Model.C12 Fabio.Generated.C12
 
 def steps (xs : List String) : Option (List Step) := xs.mapM stepOfString
 
-/-- `HTTPProxy.ServeHTTP`: lookup, then the access check, then authentication, then the first reference to
-anything that contacts an upstream (handler construction, dial, `h.ServeHTTP`). -/
-theorem http_order_pinned : steps httpOrder = some [.lookup, .access, .auth, .upstream] := by decide
+/-- `HTTPProxy.ServeHTTP`: lookup, then the access check, then authentication, then the redirect answer of a
+`redirect=` route, then the first reference to anything that contacts an upstream (handler construction, dial, `h.ServeHTTP`). -/
+theorem http_order_pinned : steps httpOrder = some [.lookup, .access, .auth, .redirect, .upstream] := by decide
 
 /-- Both gates are top-level statements `if <check> { http.Error(…); return }` of the function body. -/
 theorem http_gates_return : httpGatesReturn = true := by decide
@@ -18,10 +18,20 @@ request that found a route, passed the access rules and was authorized. -/
 theorem http_gate_before_upstream (env : Env) (ss : List Step) (hs : steps httpOrder = some ss)
     (h : (runGate env ss false).2 = true) :
     env.found = true ∧ env.denied = false ∧ env.authorized = true := by
-  have : ss = [.lookup, .access, .auth, .upstream] := by
+  have : ss = [.lookup, .access, .auth, .redirect, .upstream] := by
     have := http_order_pinned; rw [hs] at this; exact Option.some.inj this
   subst this
   exact Props.C12.gate_before_upstream env _ (by decide) h
+
+/-- … and answers with the route's redirect only such a request: a denied or unauthenticated request to a
+redirect route gets 403/401, not 3xx. -/
+theorem http_gate_before_redirect (env : Env) (ss : List Step) (hs : steps httpOrder = some ss)
+    (h : (runGate env ss false).1 = .redirected) :
+    env.found = true ∧ env.denied = false ∧ env.authorized = true := by
+  have : ss = [.lookup, .access, .auth, .redirect, .upstream] := by
+    have := http_order_pinned; rw [hs] at this; exact Option.some.inj this
+  subst this
+  exact Props.C12.gate_before_redirect env _ false (by decide) h
 
 theorem http_statuses_pinned :
     httpDeniedStatus = "http.StatusForbidden" ∧ httpUnauthorizedStatus = "http.StatusUnauthorized" := by decide
@@ -66,6 +76,14 @@ theorem grpc_gate_before_upstream (env : Env) (ss : List Step) (hs : steps grpcO
 /-- `AccessDeniedTCP` decides by calling `AccessDeniedAddr`, the function the gRPC interceptor uses: one
 decision (the model's `accessDeniedTCP`) for TCP connections and gRPC peers. -/
 theorem tcp_and_grpc_share_decision : tcpDelegatesToAddr = 1 := by decide
+
+/-- The basic scheme is the realm and the htpasswd file handle, nothing else (no cache, no counters), and
+`basic.Authorized` only reads the request's credentials, sets the challenge header and asks the file: the
+decision is a function of the attempt and the file (`auth_decision_depends_only_on_attempt`). -/
+theorem basic_scheme_is_stateless :
+    basicFields = ["realm string", "secrets *htpasswd.File"] ∧
+    basicAuthorizedCalls = ["request.BasicAuth", "response.Header().Set", "response.Header", "b.secrets.Match"] ∧
+    basicAuthorizedWrites = 0 := by decide
 
 /-- The keys of the rule map the model calls `allow` and `deny`. -/
 theorem tags_pinned : ipAllowTag = "allow:ip" ∧ ipDenyTag = "deny:ip" := by decide
